@@ -93,7 +93,12 @@ func c09Variants(k universe.Kind) []c09Variant {
 			}},
 		}
 	case universe.KTime:
-		return []c09Variant{{"time", func(v int) any { return universe.T1.Add(time.Duration(v) * time.Hour) }}}
+		return []c09Variant{{"time", func(v int) any { return universe.T1.Add(time.Duration(v) * time.Hour) }},
+			{"time-250ms", func(v int) any { return universe.T1.Add(time.Duration(v) * 250 * time.Millisecond) }},
+			{"time-1ns", func(v int) any { return universe.T1.Add(time.Duration(v)) }},
+			{"time-zone-and-second", func(v int) any {
+				return universe.T1.Add(time.Duration(v) * time.Second).In(time.FixedZone("", v*3600))
+			}}}
 	case universe.KDuration:
 		return []c09Variant{{"duration", func(v int) any { return time.Duration(v) * 90 * time.Second }}}
 	}
@@ -276,6 +281,12 @@ func c09Run(c *engine.Ctx) {
 		{"query", "https://example.com/o?x=1", "https://example.com/o?x=2"},
 		{"query-key", "https://example.com/o?x=1", "https://example.com/o?y=1"},
 		{"query-present", "https://example.com/o", "https://example.com/o?x=1"},
+		{"ipv6-address", "https://[2001:db8::1]/o/1", "https://[2001:db8::2]/o/1"},
+		{"ipv6-address-dotted", "https://[2001:db8::1]/o/./1", "https://[2001:db8::2]/o/1"},
+		{"ipv6-port", "https://[::1]:3000/o/1/", "https://[::1]:4000/o/1"},
+		{"ipv6-short", "http://[::1]/o/1/", "http://[::2]/o/1"},
+		{"query-value-slash", "https://example.com/o?dir=/in/", "https://example.com/o?dir=/in"},
+		{"userinfo-host", "https://a@example.com/o/1/", "https://a@example.org/o/1"},
 	}
 	for i := range universe.Structs {
 		s := &universe.Structs[i]
